@@ -4,6 +4,7 @@ import (
 	stdcontext "context"
 	"errors"
 	"github.com/megaease/easegress/pkg/object/serviceregistry"
+	cache "github.com/patrickmn/go-cache"
 	"io"
 	"net/http"
 	"net/url"
@@ -288,6 +289,14 @@ func vForward(requestSide bool) {
 	if !requestSide {
 		codings := []string{"", "gzip", "br", "deflate, gzip", "GZIP", "x-gzip"}
 		backendCE = codings[verifChoose("resp.contentEncoding", verifBound("contentCodings"))]
+	}
+	// the pool may keep a memory cache of responses (the cache itself - the go-cache library - is
+	// replaced by one that never hits): storing a response must not disturb its delivery,
+	// buffered or streamed
+	if !requestSide && !compress && !stream && verifBool("pool.memoryCache") {
+		sp.memoryCache = &MemoryCache{spec: &MemoryCacheSpec{Expiration: "10s", MaxEntryBytes: 2, Codes: []int{200, 404}, Methods: []string{"GET", "POST", "PUT"}},
+			cache: &cache.Cache{}}
+		verifCover("pool-with-memory-cache")
 	}
 	// the pool lists 503 among its failureCodes: a backend answer with that status is reported
 	// with result failureCode, and is still the backend's answer (status, headers, body)
@@ -637,3 +646,6 @@ func verifC03_ServerAddr() {
 		verifCover("host-name")
 	}
 }
+
+func vGoCacheGet(c *cache.Cache, k string) (interface{}, bool)             { return nil, false }
+func vGoCacheSet(c interface{}, k string, x interface{}, d time.Duration) {}
